@@ -103,6 +103,11 @@ Example files_demo_content :
   option_map n_parent (w_nodes (wof files_demo) 8) = Some PNone.
 Proof. vm_compute. repeat split; reflexivity. Qed.
 
+Example files_demo_summary :
+  (TreeFacts (wof files_demo) /\ Inv04 tiny tiny_check_fn (wof files_demo) /\ Inv05 tiny (wof files_demo)) /\
+  idents_of (wof files_demo) 0 = [(BS "/A", 2); (BS "/A/S", 5)] /\ origins_list (wof files_demo) 0 = [(BS "/B", [7])].
+Proof. split; [exact files_demo_inv|]. destruct files_demo_content as (_ & H1 & H2 & _). auto. Qed.
+
 (* the hypotheses of the per-operation theorems are satisfiable together with a non-trivial operation *)
 Example demo_step_hyps :
   let w := wof demo in let o := OpCreateNamed 4 nSYSTEM (BS "T") in
